@@ -22,6 +22,17 @@ WNO: contextvars.ContextVar = contextvars.ContextVar("verif_worker_no", default=
 SLACK_US = int((5.0 + 1.0 + 1.0) * 1e6)   # consumer finish timeout + health server timeout + 1 s
 
 
+class _OddError(Exception):
+    """an exception with its own idea of its text"""
+
+    def __init__(self, jid):
+        super().__init__("ignored", jid)
+        self.jid = jid
+
+    def __str__(self):
+        return f"odd error for {self.jid}"
+
+
 def default_scenario(**kw) -> dict:
     sc = {
         "jobs": [], "actors": {"job": {"queue": "default", "policy": ["const", 0], "variant": "plain"}},
@@ -151,6 +162,8 @@ async def run_worker(loop, sc: dict, make=None, projector=inmem_projector, signa
                     match = payload.success is True and payload.exception is None and json.loads(payload.data) == last["ret"]
                 else:
                     match = payload.success is False and payload.exception is not None and isinstance(payload.data, str)
+                    if last["what"] == "raise" and last.get("exc") is not None:      # the exception's text and type name
+                        match = match and payload.data == str(last["exc"]) and payload.exception == type(last["exc"]).__name__
                 match = bool(match and payload.started_when <= payload.finished_when
                              and payload.ttl == jobs[jid].get("result_ttl", timedelta(days=1)))
             rec.emit({"e": "store", "i": i, "failed": bool(fail), "match": bool(match)})
@@ -197,7 +210,12 @@ async def run_worker(loop, sc: dict, make=None, projector=inmem_projector, signa
                 if what == "ok":
                     return {"jid": jid, "att": att}
                 if what == "raise":
-                    raise ValueError(f"boom {jid} {att}")
+                    # exceptions whose text is not simply their first argument, in turn
+                    kinds = [lambda: ValueError(f"boom {jid} {att}"), lambda: KeyError(f"k{jid}{att}"), lambda: OSError(5, f"io {jid}"),
+                             lambda: RuntimeError("two", f"args {att}"), lambda: _OddError(jid)]
+                    exc = kinds[(att + len(jid) + sum(map(ord, jid))) % len(kinds)]()
+                    last_outcome[jid]["exc"] = exc
+                    raise exc
                 if what == "cancelled":            # the actor ends with CancelledError of its own making
                     helper = asyncio.ensure_future(asyncio.sleep(3600))
                     helper.cancel()
